@@ -10,7 +10,7 @@ From Coq Require Import List ZArith NArith Bool String Permutation.
 Import ListNotations.
 From DD Require Import Base.PyStr Base.Value Hash.HashModel Hash.Equiv
   Hash.HashProofsBase Hash.HashProofsC06 Hash.HashProofsC07 Hash.HashProofsMemo Hash.HashProofsK2 Hash.HashMembers
-  Hash.HashAlike Hash.HashProofsAlike Hash.HashXModel Hash.HashXProofs Hash.HashXEquiv Hash.HashXProofsEqv.
+  Hash.HashAlike Hash.HashProofsAlike Hash.HashXModel Hash.HashXProofs Hash.HashXEquiv Hash.HashXProofsEqv Hash.HashKeys Hash.HashKeysProofs Hash.HashXBlind.
 
 (* Order-insensitive modes (ignore_iterable_order=True: nested-set and
    nested-multiset mode), every option record, every hasher, all values. *)
@@ -272,3 +272,32 @@ Theorem C06_extended_witnesses :
    xdeephash hexhash (skip_this (mk_skip [] [] [XTInt] [])) default_xopts a <> None).
 Proof. split; [exact paths_need_blindness|exact xeqvi_example]. Qed.
 Print Assumptions C06_extended_witnesses.
+
+(* Dicts whose KEYS are containers (Hash/HashKeys.v): equal content - the visible items up to order, keys and items
+   related by [eqvi] - hashes equally, for every hasher, every option record, every mode. *)
+Theorem C06_container_keys_eqvi_hash :
+  forall (H : pystr -> pystr) o l1 l2 l2',
+  Permutation (kvis o l2) l2' ->
+  Forall2 (fun p q => eqvi o (fst p) (fst q) /\ eqvi o (snd p) (snd q)) (kvis o l1) l2' ->
+  kdict_hash H o l1 = kdict_hash H o l2.
+Proof. exact kdict_eqvi_hash. Qed.
+Print Assumptions C06_container_keys_eqvi_hash.
+
+(* exclude_paths / include_paths in the order-insensitive modes.  Sufficient, for every configuration and every mode:
+   no listed path has a component that an index can match - a sequence index or a non-negative int key, which the
+   code both spells "[n]" ([cfg_blind]) ... *)
+Theorem C06_extended_paths_blind :
+  forall (H : pystr -> pystr) (xo : xopts) (c : skip_cfg), cfg_blind c = true ->
+  forall a b, xeqvi (xbase xo) a b -> xdeephash H (skip_this c) xo a = xdeephash H (skip_this c) xo b.
+Proof. intros H xo c Hc. apply xeqvi_hash. apply skip_this_blind_ok. exact Hc. Qed.
+Print Assumptions C06_extended_paths_blind.
+
+(* ... and exact for a configuration that is one excluded path: the hypothesis of C06_extended_eqvi_hash holds IF AND
+   ONLY IF the path is blind (C06_extended_witnesses is the instance root[0]). *)
+Theorem C06_extended_single_path_exact :
+  forall o e, ignore_iterable_order o = true ->
+  ((forall p q a b, psim o p q -> xeqvi o a b ->
+      skip_this (mk_skip [e] [] [] []) p a = skip_this (mk_skip [e] [] [] []) q b)
+   <-> path_blind e = true).
+Proof. exact single_path_exact. Qed.
+Print Assumptions C06_extended_single_path_exact.
